@@ -23,7 +23,7 @@ from . import build, g1, g2, g4, g7, harvest, pysym, ref, runner, units
 
 LEVELS = ("fstrategy", "call", "cfgd", "cfg", "fmt")
 KEYS = ("alias", "exact", "origin")
-KINDS = ("dict", "ser_only", "de_only", "pass", "strategy")
+KINDS = ("dict", "ser_only", "de_only", "pass", "strategy", "strategy_ua")  # strategy_ua: SerializationStrategy(use_annotations=True)
 
 
 @dataclasses.dataclass(frozen=True)
@@ -65,6 +65,12 @@ def class_source(p: CPoint):
                     f"    def serialize(self, value):", f"        return {marker(level, key, 'ser')}(value)",
                     f"    def deserialize(self, value):", f"        return {marker(level, key, 'de')}(value)",
                     f"{sname(level, key)}_inst = {sname(level, key)}()"]
+        if kind == "strategy_ua":
+            # the annotations say Any: the value produced by the strategy is passed on unchanged
+            src += [f"class {sname(level, key)}(SerializationStrategy, use_annotations=True):",
+                    f"    def serialize(self, value: Any) -> Any:", f"        return {marker(level, key, 'ser')}(value)",
+                    f"    def deserialize(self, value: Any) -> Any:", f"        return {marker(level, key, 'de')}(value)",
+                    f"{sname(level, key)}_inst = {sname(level, key)}()"]
         regs[(level, key)] = kind
 
     def regexpr(level, key, kind):
@@ -76,7 +82,7 @@ def class_source(p: CPoint):
             return f"{{'deserialize': {marker(level, key, 'de')}}}"
         if kind == "pass":
             return "pass_through"
-        return f"{sname(level, key)}_inst"
+        return f"{sname(level, key)}_inst"  # strategy / strategy_ua
 
     kx = KEYEXPR_NT if p.tname == "NT" else KEYEXPR
 
@@ -150,7 +156,7 @@ def resolver(mod, p: CPoint, unit_levels):
         def value(l, k, kind):
             if kind == "pass":
                 return pass_through
-            if kind == "strategy":
+            if kind in ("strategy", "strategy_ua"):
                 return getattr(mod, f"{sname(l, k)}_inst")
             if kind == "dict" or (kind == "ser_only" and d == "ser") or (kind == "de_only" and d == "de"):
                 return getattr(mod, marker(l, k, d))
